@@ -2,6 +2,7 @@ package sx
 
 import (
 	"fmt"
+	"hash/crc32"
 	"go/token"
 	"sort"
 	"strings"
@@ -88,9 +89,6 @@ func init() {
 			}
 			if !holds {
 				it.violationModel = cex
-				if it.env != nil {
-					it.snapshotForReplay(cex)
-				}
 				panic(abort{st: StViolation, id: id, msg: "assertion " + id + " can be violated @ " + fr.caller.stack()})
 			}
 			return nil
@@ -223,20 +221,36 @@ func init() {
 			return out
 		},
 		"verifFSUnsynced": func(fr *Frame, a []Value) Value {
-			// bytes of the file not yet synced whose tag starts with the given prefix ("" = all)
-			n, ok := fr.it.env.lookupFile(concStr(a[0], "verifFSUnsynced"))
-			if !ok || n.isDir {
-				return uint64(0)
-			}
+			// unsynced bytes written under tags starting with the prefix ("" = all), in a file or in every file below a directory
+			e := fr.it.env
+			root := clean(concStr(a[0], "verifFSUnsynced"))
 			pre := concStr(a[1], "verifFSUnsynced")
 			tot := 0
-			for _, r := range n.file.unsynced {
-				if strings.HasPrefix(r.tag, pre) {
-					tot += r.n
+			for p, n := range e.nodes {
+				if n.isDir || (p != root && !strings.HasPrefix(p, root+"/")) {
+					continue
+				}
+				for _, r := range n.file.unsynced {
+					if strings.HasPrefix(r.tag, pre) && (pre == "" || r.tag == pre || !isDigit(r.tag[len(pre)])) {
+						tot += r.n
+					}
 				}
 			}
 			return uint64(tot)
 		},
+		"verifFSWrittenTag": func(fr *Frame, a []Value) Value {
+			return uint64(fr.it.env.written[concStr(a[0], "verifFSWrittenTag")])
+		},
+		"verifNative": func(fr *Frame, a []Value) Value { return false },
+		"verifCheckpointInt": func(fr *Frame, a []Value) Value {
+			x := fr.it.concInt(a[1], "verifCheckpointInt")
+			if fr.it.ckptFS == nil {
+				fr.it.ckptFS = fr.it.env.copyCells()
+			}
+			fr.it.path.choices["ckpt:"+concStr(a[0], "verifCheckpointInt")] = uint64(x)
+			return uint64(x)
+		},
+		"verifFSTornFiles": func(fr *Frame, a []Value) Value { return uint64(fr.it.env.nTorn) },
 		"verifFSOps": func(fr *Frame, a []Value) Value { return uint64(len(fr.it.env.ops)) },
 		"verifFSOpKind": func(fr *Frame, a []Value) Value {
 			e := fr.it.env
@@ -324,12 +338,64 @@ type ReplayLog struct {
 	Notes map[string]string
 }
 
+// snapshotForReplay renders the FS image a native replay starts from: the image at the first checkpoint
+// if the harness declared one, else the current one. Checksum variables are first replaced by the real
+// CRC-32 of their coverage under the model, so that the real decoder accepts what the ideal one accepted.
 func (it *Interp) snapshotForReplay(m smt.Model) {
 	if m == nil {
-		m = smt.Model{}
+		return
 	}
-	it.replay = &ReplayLog{Files: it.env.snapshot(m)}
+	it.patchCRC(m)
+	cells := it.ckptFS
+	if cells == nil {
+		cells = it.env.copyCells()
+	}
+	files := map[string][]byte{}
+	memo := map[*smt.Term]uint64{}
+	for p, cs := range cells {
+		if cs == nil {
+			files[p] = nil
+			continue
+		}
+		b := make([]byte, len(cs))
+		for i, c := range cs {
+			switch c := c.(type) {
+			case uint64:
+				b[i] = byte(c)
+			case *smt.Term:
+				b[i] = byte(smt.Eval(c, m, memo))
+			}
+		}
+		files[p] = b
+	}
+	it.replay = &ReplayLog{Files: files}
 }
+
+// patchCRC overwrites the model values of checksum variables with real CRC-32 values.
+func (it *Interp) patchCRC(m smt.Model) {
+	if it.crcTab == nil {
+		return
+	}
+	for _, app := range it.crcTab.apps {
+		v, ok := app.res.(*smt.Term)
+		if !ok {
+			continue
+		}
+		memo := map[*smt.Term]uint64{}
+		bs := make([]byte, len(app.args))
+		for i, a := range app.args {
+			switch a := a.(type) {
+			case uint64:
+				bs[i] = byte(a)
+			case *smt.Term:
+				bs[i] = byte(smt.Eval(a, m, memo))
+			}
+		}
+		m[v.Name] = uint64(crc32.ChecksumIEEE(bs))
+	}
+}
+
+func isDigit(c byte) bool { return c >= '0' && c <= '9' }
 
 func sortedChoiceKeys(m map[string]uint64) []string {
 	ks := make([]string, 0, len(m))
